@@ -233,6 +233,8 @@ def run(ctx):
     rule_close_writes(ctx, r2, ("tracked jobs",))
     from .persist import rule_table_ownership
     rule_table_ownership(ctx, r2, ("tracked jobs",))
+    from .shared import import_rules as _imp
+    _imp(ctx, r2, "C08", only={"R2"})      # the id handed to the scheduler's cancel is the id recorded at submission (same value, same type)
     from .shared import rule_coroutines_awaited
     rule_coroutines_awaited(ctx, r2)
     # "... and of no other target": the tracked jobs consulted are those of the project the command is run in (or given with -f), not of a project named by the environment
